@@ -38,7 +38,11 @@ Definition rel_close (a b : Qc) : bool := Qc_leb (Qc_abs (a - b)) (Q2Qc (1 # 100
             else:
                 c["snr"] = [rng.choice([1.0, 2.0, 4.0, 0.5]) for _ in range(n)]
             if mode != "std" and rng.random() < 0.3:
-                c["also_std"] = rng.choice([3.0, 1.0, 0.25, 0.0])     # "the given std when NO SNR is given": with an snr, std plays no part
+                c["also_std"] = rng.choice([3.0, 1.0, 0.25, 0.0])
+            if mode == "db" and rng.random() < 0.4:
+                # an earlier call in this process with the same scalar snr and a flag that EQUALS True without being it (1, np.True_:
+                # the linear branch, by the `is True` test): the decibel call that follows is decided on its own arguments
+                c["earlier_flag"] = rng.choice(["int1", "np_true"])     # "the given std when NO SNR is given": with an snr, std plays no part
             cases.append(c)
         # a per-sample snr / std given as a ONE-element array-like for a longer signal (np.atleast_1d(cfg), a one-row column): it
         # broadcasts — every sample gets its own draw with that scale (size is the signal's shape, not the scale's)
@@ -88,6 +92,9 @@ Definition rel_close (a b : Qc) : bool := Qc_leb (Qc_abs (a - b)) (Q2Qc (1 # 100
                     r = P.noise_gauss(a, std=(np.array([c["std"]]) if c.get("std_array") and not c["list_input"] else [c["std"]] if c.get("std_array") else c["std"]))
                 else:
                     kw_ = {"std": c["also_std"]} if "also_std" in c else {}
+                    if c.get("earlier_flag"):
+                        P.noise_gauss(a, snr=snr, snr_in_db=1 if c["earlier_flag"] == "int1" else np.True_)
+                        del calls[:]
                     r = P.noise_gauss(a, snr=snr, snr_in_db=c["mode"].startswith("db"), **kw_)
                     P.noise_gauss(a, snr=snr, snr_in_db=c["mode"].startswith("db"), **kw_)     # same arguments again: same scale expected
             return {"out": np.asarray(r, dtype=float).reshape(-1).tolist(), "out_shape": list(np.shape(r)), "calls": calls[:1], "second": calls[1:],
